@@ -44,7 +44,7 @@ let src r = spt r.tl ^ " " ^ z_out r.sz.sw ^ " " ^ z_out r.sz.sh
 
 let mk_font f repl data = { mf_geom = f; mf_index = (fun c -> str_index data repl c); mf_atlas = atlas_bit }
 
-let name_codes (s : string) = Stdlib.List.init (Stdlib.String.length s) (fun i -> z_of_int (Char.code s.[i]))
+let name_codes (s : string) = Stdlib.List.init (Stdlib.String.length s) (fun i -> z_of_int (Stdlib.Char.code (Stdlib.String.get s i)))
 
 let init () =
   (* c14_ds <font:10> <style:4> x y bl repl <n map...> <n text...> *)
